@@ -86,12 +86,20 @@ func c07Intrinsic(k *Keeper, ctx sdk.Context, msg core.Message, cfg *ethparams.C
 	return c07.intrinsic, nil
 }
 
-type c07FeeMarket struct{ mult sdk.Dec }
+// c07FeeMarket: the fee market's parameters as the EVM keeper reads them. The minimum gas multiplier applies whatever the
+// other parameters say (base fee switched off, enable height not reached yet).
+type c07FeeMarket struct {
+	mult         sdk.Dec
+	enableHeight int64
+	noBaseFee    bool
+}
 
 func (f c07FeeMarket) GetBaseFee(ctx sdk.Context) *big.Int { return nil }
 func (f c07FeeMarket) GetParams(ctx sdk.Context) feemarkettypes.Params {
 	p := feemarkettypes.DefaultParams()
 	p.MinGasMultiplier = f.mult
+	p.EnableHeight = f.enableHeight
+	p.NoBaseFee = f.noBaseFee
 	return p
 }
 func (f c07FeeMarket) AddTransientGasWanted(ctx sdk.Context, gasWanted uint64) (uint64, error) { return 0, nil }
@@ -134,6 +142,7 @@ var c07To = common.HexToAddress("0x2000000000000000000000000000000000000002")
 // then the refund of the unused part at the effective price makes the sender's net payment exactly gasUsed x price.
 func VerifC07_GasUsed() {
 	env := zz.NewEnv([]string{"evm"}, []string{"transient_evm"})
+	env.Ctx = env.Ctx.WithBlockHeight(zz.AnyInt64In("height", 1, 1<<40))
 	mult := zz.AnyDecRaw("minGasMultiplier", "0", "1000000000000000000")
 	gasLimit := zz.AnyUint64In("gasLimit", 0, 1<<62)
 	price := zz.AnyBigAmount("effectiveGasPrice", 128)
@@ -146,7 +155,7 @@ func VerifC07_GasUsed() {
 	sender0 := bank.sender.Add(upfront)
 	ak := &c02kAK{accs: map[string]authtypes.AccountI{}}
 	ak.accs[string(sdk.AccAddress(c07From.Bytes()))] = ak.NewAccountWithAddress(env.Ctx, sdk.AccAddress(c07From.Bytes()))
-	k := &Keeper{cdc: zz.Codec(), storeKey: env.Key("evm"), transientKey: env.Key("transient_evm"), bankKeeper: bank, accountKeeper: ak, feeMarketKeeper: c07FeeMarket{mult: mult}}
+	k := &Keeper{cdc: zz.Codec(), storeKey: env.Key("evm"), transientKey: env.Key("transient_evm"), bankKeeper: bank, accountKeeper: ak, feeMarketKeeper: c07FeeMarket{mult: mult, enableHeight: zz.AnyInt64In("feemarket.enableHeight", 0, 1<<40), noBaseFee: zz.AnyBool("feemarket.noBaseFee")}}
 
 	c07.leftover = zz.AnyUint64("evmLeftover")
 	c07.refund = zz.AnyUint64In("refundCounter", 0, 1<<62)
